@@ -25,7 +25,9 @@ Check (C02live_synrecv_ack_no_rst : forall cx s ip r s' rep tags,
   s_tuple s' = s_tuple s /\ s_tx_buffer s' = s_tx_buffer s /\
   (s_remote_last_ack s <> None -> s_remote_last_ack s' <> None) /\
   rt_max_seq_sent (s_rtte s') = rt_max_seq_sent (s_rtte s) /\
-  ((s_state s' = SynReceived /\ s_local_seq_no s' = s_local_seq_no s) \/
+  ((s_state s' = SynReceived /\ s_local_seq_no s' = s_local_seq_no s /\
+    fst (tcp_segment_in_window (tcp_window_start s) (tcp_window_end s) (r_seq_number r)
+                               (seq_add (r_seq_number r) (l_len (r_payload r)))) = false) \/
    (s_state s' = Established /\ s_local_seq_no s' = seq_add (s_local_seq_no s) 1)) /\
   reply_ack ip r s' rep).
 
@@ -37,7 +39,8 @@ Check (C02live_synsent_synack_establishes : forall cx s ip r s' rep tags,
   s_local_seq_no s' = seq_add (s_local_seq_no s) 1 /\
   s_remote_seq_no s' = seq_add (r_seq_number r) 1 /\ s_rx_buffer s' = s_rx_buffer s /\
   s_remote_last_ack s' = Some (r_seq_number r) /\ rep = None /\
-  rt_max_seq_sent (s_rtte s') = rt_max_seq_sent (s_rtte s)).
+  rt_max_seq_sent (s_rtte s') = rt_max_seq_sent (s_rtte s) /\
+  s_remote_last_seq s' = seq_add (s_local_seq_no s) 1 /\ s_ack_delay_timer s' = s_ack_delay_timer s).
 
 Check (C02live_handshake_transmits : forall cx s t ok s' res tags,
   tcp_live_inv s -> (s_state s = SynSent \/ s_state s = SynReceived) -> s_timeout s = None ->
